@@ -72,11 +72,25 @@ META = {
             "double and long double with ASan+UBSan: trap/tri/lins/linz/s/z/pi, the dispatcher, the min/max/algebraic/bounded operators "
             "and fuzzy-controller histories on dyadic data whose every intermediate fits binary32 must print exactly the documented "
             "values in all three builds, with every table and the scratch block of exactly A_PID_FUZZY_BFUZZ(n) bytes in one pool with "
-            "guard bytes; the exp/pow/sqrt families are compared with a binary64 reference within 1e-5 relative + 1e-6 absolute.",
+            "guard bytes; the exp/pow/sqrt families are compared with a binary64 reference within 1e-5 relative + 1e-6 absolute. "
+            "LOOP TIE (harness/C13/TieLoop1.v, TieLoop2.v, 5 theorems re-proved on every run): src/pid_fuzzy.c is regenerated from the "
+            "current source with its loops as Fixpoints (tools/c2arr.py: scratch blocks and tables as lists with checked access, the "
+            "switch on (int)tag as the chain of tests k <= v < k+1, the goto exits as in the source, the rule bases with a null flag, "
+            "the operator member as a function, ++i and idx[i] *= nrule checked to fit 32 bits) and proved equal to the hand model "
+            "C13/FuzzyDefs.v for every NumOps instance: the table walker a_pid_fuzzy_mf = mf_walk for every number of sets, table, "
+            "scratch block and start cell; a_pid_fuzzy_out_ = fuzzy_out_ (both walks, joint membership and its sum, the guard on a "
+            "non-positive sum, the three weighted means with present or NULL rule bases, gains = base + mean, and the same error "
+            "cases) for EVERY rule-base order with nrule^2 < 2^32; a_pid_fuzzy_opr/set_opr = fuzzy_opr; a_pid_fuzzy_zero = fuzzy_zero. "
+            "The calls of a_mf_* and a_fuzzy_* inside it are rendered as the model functions that harness/C13/TieMf.v ties to "
+            "mf.c/fuzzy.c on the same run. Not regenerated: a_pid_fuzzy_set_bfuzz (byte arithmetic on a void pointer) and run/pos/inc "
+            "(they add the a_pid_run_/pos_/inc_ of src/pid.c, tied for C12).",
     "note": "Trusted: Coq kernel/vm_compute with primitive floats; the standard real-number axioms listed by Print "
             "Assumptions (classical reals, functional extensionality); the 'same term, different NumOps instance' argument; "
             "the hand transcription coq/C13/MfDefs.v + FuzzyDefs.v (on coq/C12/PidDefs.v), validated bit for bit on the "
-            "generated cases only (mf.c/fuzzy.c/fuzzy.h additionally by the regenerated-model tie theorems).  The rounded-"
+            "generated cases only (mf.c/fuzzy.c/fuzzy.h and now pid_fuzzy.c's walker, a_pid_fuzzy_out_, operator selection and zero "
+            "additionally by the regenerated-model tie theorems; the translators tools/c2coq.py and tools/c2arr.py are trusted to "
+            "read the C right - their output is proved equal to the model, not to the C; c2arr renders (int)v in the switch as "
+            "k <= v < k+1 for the labels and sends everything else, NaN and out-of-range values included, to the default arm).  The rounded-"
             "arithmetic theorems assume pow/exp correctly rounded or constrained by orc_ok, no overflow, and x, a, b binary64 "
             "numbers for the unconditional s/z/pi range.  Modelled, not verified: in the R instance pow is the real power function Rpow of "
             "coq/C13/R13Ops.v (Rpower for a positive base, 0^y, integer powers of negative bases) and exp is Coq's exp - "
@@ -90,7 +104,9 @@ META = {
             "only compared with a binary64 reference within a float-sized tolerance there.",
     "technique": "Rocq proof over R (case analysis + lra/nra/field, stdlib continuity and Rpower, forward simulation of the "
                  "loops over explicit scratch lists by induction) + mf.c/fuzzy.c/fuzzy.h (13 membership functions, the dispatcher per tag, "
-                 "9 operators) regenerated by a translator and proved equal to the model on every run + bit-exact "
+                 "9 operators) regenerated by a translator and proved equal to the model on every run, pid_fuzzy.c (table walker, "
+                 "a_pid_fuzzy_out_, operator selection) regenerated with its loops as Fixpoints and proved equal to the model for every "
+                 "rule-base order + bit-exact "
                  "primitive-float model vs C correspondence under ASan + independent reference oracle",
 }
 
@@ -859,6 +875,10 @@ def run(ctx):
     # second tie: mf.c, fuzzy.c and fuzzy.h are REGENERATED by the translator and proved equal to the hand model, one theorem per
     # membership function, per dispatcher tag and per operator, for every NumOps instance
     ctx.translate_and_tie([("src/mf.c", MF_NAMES), ("src/fuzzy.c", OPR_NAMES)], "GenMf", H / "TieMf.v", have=1, real=8)
+    # third tie: src/pid_fuzzy.c (table walker, joint membership / defuzzifier, operator selection) regenerated with its loops as
+    # Fixpoints (tools/c2arr.py) and proved equal to the hand model C13/FuzzyDefs.v for every rule-base order (harness/C13/TieLoop*.v)
+    import varr
+    varr.arr_translate_and_tie(ctx, "C13")
     ctx.assumptions += ["floating-point rounding and libm accuracy are not part of the theorems; the oracle compares the real-libm "
                         "build with the documented definitions to 1e-9",
                         "C built with gcc -O2 -ffp-contract=off -fsanitize=address; exp/pow substituted identically in the bit-exact run"]
